@@ -3,7 +3,7 @@ what it did.  No TLV is built, parsed or compared here.
 
 Inputs
   --cases     the TypeGen cases (env, top, vals, cid) or raw fixture cases
-              ({cid, raw:[octets], files:[..], type, codec}) the variants were generated from
+              ({cid, raw:[octets], recipe, type, codec}: fx_meta.ndjson of record_fixtures.py) the variants were generated from
   --variants  the ndjson written by spec/TlvRewrite.tla: {cid, vi, b:[octets], d:[node descriptions]}
 
 Output, one line per case:
@@ -88,10 +88,20 @@ def run_batch(batch, variants, out):
         env, top = c['env'], c['env']['types'][c['top']]
         name = c['map'][c['top']]
         obs = []
+        vals = list(c['vals'])
+        # derived start values (TlvRewrite!ExtraVals) arrive with their unrewritten variant
+        for vi in sorted(variants.get(c['cid'], {})):
+            for v in variants[c['cid']][vi]:
+                if 'xv' in v and vi == len(vals) + 1:
+                    vals.append(v['xv'])
         for vi in sorted(variants.get(c['cid'], {})):
             vs = variants[c['cid']][vi]
             ctl = [v for v in vs if not v['d']]
             rec = {'vi': vi, 'codec': CODEC, 'ne': False, 'same': 0, 'diff': []}
+            if vi > len(vals):
+                rec['machinery'] = 'variant of value %d, but only %d values are known' % (vi, len(vals))
+                obs.append(rec)
+                continue
             # (a permutation applied twice gives the unrewritten tree again: same octets)
             if not ctl or any(v['b'] != ctl[0]['b'] for v in ctl):
                 rec['machinery'] = 'expected one unrewritten variant, got %d' % len(ctl)
@@ -116,18 +126,28 @@ def run_batch(batch, variants, out):
                 else:
                     rec['diff'].append({'b': v['b'], 'd': v['d'], 'dec': d})
             obs.append(rec)
-        out.write(json.dumps({'cid': c['cid'], 'env': env, 'top': c['top'], 'vals': c['vals'], 'obs': obs}) + '\n')
+        out.write(json.dumps({'cid': c['cid'], 'env': env, 'top': c['top'], 'vals': vals, 'obs': obs}) + '\n')
 
 
 _specs = {}
 
 
-def fixture_spec(files, codec):
+def fixture_spec(recipe):
+    """the Specification a recorded test call was made on, rebuilt from its recipe (record_fixtures.py)"""
     import asn1tools
-    key = (tuple(files), codec)
+    key = json.dumps(recipe, sort_keys=True)
     if key not in _specs:
-        o = guarded(lambda: asn1tools.compile_files([os.path.join(REPO, f) for f in files], codec))
-        _specs[key] = o
+        kw = dict(recipe.get('kw', {}))
+        if recipe['kind'] == 'files':
+            fn = lambda: asn1tools.compile_files([os.path.join(REPO, f) for f in recipe['files']], 'ber', **kw)  # noqa
+        elif recipe['kind'] == 'string':
+            fn = lambda: asn1tools.compile_string(recipe['text'], 'ber', **kw)  # noqa
+        else:
+            import pickle
+            with open(recipe['pickle'], 'rb') as f:
+                d = pickle.load(f)
+            fn = lambda: asn1tools.compile_dict(d, 'ber', **kw)  # noqa
+        _specs[key] = guarded(fn)
     return _specs[key]
 
 
@@ -139,8 +159,8 @@ def run_raw(c, variants, out):
     """Fixture encodings: the decoded Python value of every variant must equal (==) the value
     decoded from the recorded octets; equal / different is recorded, TLC judges."""
     codec = c.get('codec', CODEC)
-    so = fixture_spec(c['files'], codec)
-    base = {'cid': c['cid'], 'raw': c['raw'], 'type': c['type'], 'files': c['files']}
+    so = fixture_spec(c['recipe'])
+    base = {'cid': c['cid'], 'raw': c['raw'], 'type': c['type'], 'source': c.get('source', '')}
     if so['st'] != 'ok':
         base['obs'] = [{'vi': 0, 'codec': codec, 'ne': False, 'compile': strip_outcome(so)}]
         out.write(json.dumps(base) + '\n')
@@ -168,7 +188,7 @@ def run_raw(c, variants, out):
         do = guarded(lambda: spec.decode(c['type'], data))
         dval = do.pop('r', None)
         if do['st'] == 'ok' and co['st'] == 'ok':
-            eq = guarded(lambda: bool(dval == cval))
+            eq = guarded(lambda: bool(dval == cval) or repr(dval) == repr(cval))
             same = eq['st'] == 'ok' and eq['r']
         else:
             same = False
